@@ -14,6 +14,9 @@ import (
 	"strings"
 	"time"
 
+	"seehuhn.de/go/sfnt/cmap"
+	"seehuhn.de/go/sfnt/glyph"
+
 	"verif/harness/internal/gen/bytesmut"
 	"verif/harness/internal/mon"
 )
@@ -322,9 +325,57 @@ func runC02(c *mon.Ctx) {
 			return
 		}
 		tag := tags[r.IntN(len(tags))]
-		op := r.IntN(10)
+		op := r.IntN(12)
 		desc := ""
 		switch {
+		case op >= 10:
+			// every table valid on its own, but inconsistent with the others at
+			// an exact boundary: a character map whose glyph ids are the number
+			// of glyphs (one past the last glyph), the last glyph, or 0xFFFF for
+			// the characters the reader looks up itself ('H' and 'x' for the
+			// heights, f/i/l and U+FB00..FB04 for the standard ligatures);
+			// with the heights in OS/2 unset or the table missing
+			n := 0
+			if mp := tabs["maxp"]; len(mp) >= 6 {
+				n = int(mp[4])<<8 | int(mp[5])
+			}
+			m4 := cmap.Format4{}
+			for _, ch := range []rune{'H', 'x', 'f', 'i', 'l', ' ', 'A', 0xFB00, 0xFB01, 0xFB02, 0xFB03, 0xFB04, 0xA0} {
+				switch r.IntN(5) {
+				case 0:
+					m4[uint16(ch)] = glyph.ID(n)
+				case 1:
+					m4[uint16(ch)] = glyph.ID(max(n-1, 0))
+				case 2:
+					m4[uint16(ch)] = glyph.ID(n + 1 + r.IntN(3))
+				case 3:
+					m4[uint16(ch)] = 0xFFFF
+				}
+			}
+			enc := m4.Encode(0)
+			key := []cmap.Key{{PlatformID: 3, EncodingID: 1}, {PlatformID: 0, EncodingID: 3}, {PlatformID: 0, EncodingID: 4}, {PlatformID: 3, EncodingID: 10}}[r.IntN(4)]
+			tabs["cmap"] = cmap.Table{key: enc}.Encode()
+			desc = fmt.Sprintf("cmap replaced: the reader's own characters map to glyph ids around numGlyphs=%d", n)
+			switch o2 := tabs["OS/2"]; {
+			case r.IntN(3) == 0:
+				delete(tabs, "OS/2")
+				desc += ", OS/2 removed"
+			case len(o2) >= 90 && r.IntN(2) == 0:
+				o2 = append([]byte(nil), o2...)
+				copy(o2[86:90], []byte{0, 0, 0, 0})
+				tabs["OS/2"] = o2
+				desc += ", OS/2 heights zero"
+			case len(o2) >= 86:
+				o2 = append([]byte(nil), o2[:86]...)
+				o2[0], o2[1] = 0, 1
+				tabs["OS/2"] = o2
+				desc += ", OS/2 version 1"
+			}
+			if r.IntN(3) == 0 {
+				delete(tabs, "GSUB")
+				desc += ", GSUB removed"
+			}
+			k.Class("fonts:cross-table:cmap-vs-glyph-count")
 		case op <= 5:
 			var others [][]byte
 			for _, o := range S.fonts {
@@ -416,7 +467,7 @@ func runC02(c *mon.Ctx) {
 		"acc:glyf.Decode>SimpleGlyph.Decode", "acc:glyf.Decode>Glyphs.Encode",
 		"acc:gtab.Read(GSUB)>Encode", "acc:gtab.Read(GPOS)>Encode", "acc:gdef.Read>Encode", "acc:cff.Read>Write",
 		"fonts:cff-in-sfnt:accepted", "font:glyf", "font:cff", "font:cff-cid", "cff:cid-keyed", "cff:simple",
-		"truncate:exhaustive", "truncate:sampled", "fieldsweep:seeds")
+		"truncate:exhaustive", "truncate:sampled", "fieldsweep:seeds", "fonts:cross-table:cmap-vs-glyph-count")
 	for _, a := range c02amps {
 		c.Require("amplifier:" + a.name)
 	}
